@@ -26,7 +26,16 @@ var c20ids = []string{"alice", "org//bob", "/orbitdb/./carol"}
 // has not created the key.
 type failDS struct {
 	datastore.Datastore
-	fail bool
+	fail     bool
+	failGets int // the next n Get calls fail (a transient read error)
+}
+
+func (f *failDS) Get(c context.Context, k datastore.Key) ([]byte, error) {
+	if f.failGets > 0 {
+		f.failGets--
+		return nil, errors.New("datastore: read failed")
+	}
+	return f.Datastore.Get(c, k)
 }
 
 func (f *failDS) Put(c context.Context, k datastore.Key, v []byte) error {
@@ -167,3 +176,50 @@ func H_C20_identity() {
 var _ = register("H_C20_keys", H_C20_keys)
 var _ = register("H_C20_evict", H_C20_evict)
 var _ = register("H_C20_identity", H_C20_identity)
+
+
+// H_C20_readfault: an identity created earlier signs through a keystore with a cold cache (restart) while the
+// datastore fails one read: signing either reports the failure or signs with the identity's key - the stored key
+// is never replaced and entries that Append/CreateEntry returned verify under the published key.
+func H_C20_readfault() {
+	ds := &failDS{Datastore: datastore.NewMapDatastore()}
+	ks1, _ := keystore.NewKeystore(ds)
+	name := c20ids[vx.Choice("id", 2)]
+	a, err := idp.CreateIdentity(ctx, &idp.CreateIdentityOptions{Keystore: ks1, ID: name, Type: "orbitdb"})
+	vx.Assert("C20", err == nil && a != nil, "CreateIdentity succeeds")
+	if err != nil {
+		return
+	}
+	keyBefore, err := ks1.GetKey(ctx, a.ID)
+	vx.Assert("C20", err == nil && keyBefore != nil, "the signing key of the identity is in the keystore")
+	if err != nil {
+		return
+	}
+	// restart: a new keystore over the same datastore; the identity is created again (same id), then signs while
+	// one read of the datastore fails
+	ks2, _ := keystore.NewKeystore(ds)
+	b, err := idp.CreateIdentity(ctx, &idp.CreateIdentityOptions{Keystore: ks2, ID: name, Type: "orbitdb"})
+	vx.Assert("C20", err == nil && b != nil && bytes.Equal(a.PublicKey, b.PublicKey), "creating the identity again after a restart yields the same identity")
+	if err != nil {
+		return
+	}
+	ks3, _ := keystore.NewKeystore(ds) // a third instance: nothing cached
+	b.Provider = idp.NewOrbitDBIdentityProvider(&idp.CreateIdentityOptions{Keystore: ks3, ID: name, Type: "orbitdb"})
+	ds.failGets = vx.Choice("failGets", 2)
+	api := newMemAPI()
+	io := &atomIO{api: api}
+	e, serr := entry.CreateEntryWithIO(ctx, api, b, &entry.Entry{LogID: "X", Payload: []byte("p")}, nil, io)
+	ds.failGets = 0
+	if serr == nil {
+		vx.Assert("C20", e.Verify(a.Provider, io) == nil, "an entry that was signed and returned verifies under the identity's published key")
+		vx.Cover("signed-after-restart")
+	} else {
+		vx.Cover("sign-reported-failure")
+	}
+	ks4, _ := keystore.NewKeystore(ds)
+	keyAfter, err := ks4.GetKey(ctx, a.ID)
+	vx.Assert("C20", err == nil && keyAfter != nil && keyAfter.Equals(keyBefore), "the stored signing key is the one that was created, whatever failed in between")
+	vx.Cover("readfault-checked")
+}
+
+var _ = register("H_C20_readfault", H_C20_readfault)
